@@ -70,7 +70,7 @@ PROPS = {
     },
     'C02': {
         'families': [FOREST, FORESTEXH],
-        'kinds': ['prove'],
+        'kinds': ['prove', 'hverify'],
         'lean_modules': [],
         'theorems': [],
         'rule': 'Prove of live leaf subsets in arbitrary request order on Pollard and MapPollard vs the canonical proof defined on the specification forest',
